@@ -28,15 +28,15 @@ func init() {
 }
 
 type c05Rec struct {
-	id      int
-	method  string
-	scheme  string
-	host    string
-	secure  bool
-	hasTLS  bool
-	hsDone  bool
-	sess    *martian.Session
-	hijackOK bool
+	id         int
+	method     string
+	scheme     string
+	host       string
+	secure     bool
+	hasTLS     bool
+	hsDone     bool
+	sess       *martian.Session
+	hijackOK   bool
 	hijackRead string
 }
 
@@ -166,11 +166,11 @@ func runC05(k *kernel.K) {
 
 	nreq := w.Range(1, 5)
 	type creq struct {
-		id     int
-		form   string
-		spec   *ReqSpec
-		raw    []byte
-		sent   bool
+		id   int
+		form string
+		spec *ReqSpec
+		raw  []byte
+		sent bool
 	}
 	var reqs []*creq
 	forms := []string{"origin", "origin", "abs_https", "abs_http", "no_host"}
